@@ -110,6 +110,88 @@ func extractFont(kind string, which int) (bool, string) {
 	return true, ros
 }
 
+// embeddedNames: names of predefined CMaps under which the test files embed a
+// CMap stream of their own (a trimmed copy under the original name, as sloppy
+// producers write them).  Half of them are loaded as predefined CMaps by
+// other operations of the mix, the others by nobody.
+var embeddedNames = []string{"GBKp-EUC-H", "90ms-RKSJ-H", "ETen-B5-V", "KSCms-UHC-HW-V"}
+
+const embeddedTruth = "stream cid(21)=9 cid(20)=7"
+
+// copyEmbeddedCMap plays an independent Reader/Writer pair: the embedded CMap
+// is extracted from a fresh file and embedded into another fresh file.  What
+// comes out must not depend on what anybody else in the process has loaded.
+func copyEmbeddedCMap(which int) (ok bool, dig string) {
+	defer func() {
+		if p := recover(); p != nil {
+			ok, dig = false, fmt.Sprint("panic: ", p)
+		}
+	}()
+	name := embeddedNames[which%len(embeddedNames)]
+	body := "/CIDInit /ProcSet findresource begin\n12 dict begin\nbegincmap\n/CMapName /" + name + " def\n/CMapType 1 def\n/WMode 0 def\n" +
+		"/CIDSystemInfo 3 dict dup begin\n  /Registry (Adobe) def\n  /Ordering (Verif1) def\n  /Supplement 0 def\nend def\n" +
+		"1 begincodespacerange\n<00> <FF>\nendcodespacerange\n2 begincidchar\n<20> 7\n<21> 9\nendcidchar\nendcmap\n" +
+		"CMapName currentdict /CMap defineresource pop\nend\nend\n"
+	var src bytes.Buffer
+	sw, err := pdf.NewWriter(&src, pdf.V2_0, nil)
+	if err != nil {
+		return false, err.Error()
+	}
+	pages := sw.Alloc()
+	must(sw.Put(pages, pdf.Dict{"Type": pdf.Name("Pages"), "Kids": pdf.Array{}, "Count": pdf.Integer(0)}))
+	sw.GetMeta().Catalog.Pages = pages
+	ref := sw.Alloc()
+	stm, err := sw.OpenStream(ref, pdf.Dict{"Type": pdf.Name("CMap"), "CMapName": pdf.Name(name)})
+	if err != nil {
+		return false, err.Error()
+	}
+	if _, err := stm.Write([]byte(body)); err != nil {
+		return false, err.Error()
+	}
+	must(stm.Close())
+	must(sw.Close())
+	sr, err := pdf.NewReader(bytes.NewReader(src.Bytes()), int64(src.Len()), nil)
+	if err != nil {
+		return false, err.Error()
+	}
+	defer sr.Close()
+	f, err := pdf.Decode(pdf.NewCursor(sr), ref, cmap.Extract)
+	if err != nil {
+		return false, err.Error()
+	}
+	var dst bytes.Buffer
+	dw, err := pdf.NewWriter(&dst, pdf.V2_0, nil)
+	if err != nil {
+		return false, err.Error()
+	}
+	pages = dw.Alloc()
+	must(dw.Put(pages, pdf.Dict{"Type": pdf.Name("Pages"), "Kids": pdf.Array{}, "Count": pdf.Integer(0)}))
+	dw.GetMeta().Catalog.Pages = pages
+	rm := pdf.NewResourceManager(dw)
+	emb, err := rm.Embed(f)
+	if err != nil {
+		return false, err.Error()
+	}
+	must(rm.Close())
+	holder := dw.Alloc()
+	must(dw.Put(holder, pdf.Dict{"CMap": emb}))
+	must(dw.Close())
+	dr, err := pdf.NewReader(bytes.NewReader(dst.Bytes()), int64(dst.Len()), nil)
+	if err != nil {
+		return false, err.Error()
+	}
+	defer dr.Close()
+	back, err := pdf.Decode(pdf.NewCursor(dr), emb, cmap.Extract)
+	if err != nil {
+		return false, err.Error()
+	}
+	kind := "stream"
+	if _, byName := emb.(pdf.Name); byName {
+		kind = "name"
+	}
+	return true, fmt.Sprintf("%s cid(21)=%d cid(20)=%d", kind, back.LookupCID([]byte{0x21}), back.LookupCID([]byte{0x20}))
+}
+
 func predefinedROS(which int) (bool, string) {
 	f, err := cmap.Predefined(sharedCMaps[which%len(sharedCMaps)])
 	if err != nil {
@@ -375,6 +457,16 @@ func (w *world) do(o op) (ok bool, id int, dig string) {
 	case "PredefinedROS":
 		ok, dig = predefinedROS(o.Ref)
 		return ok, 0, dig
+	case "CopyEmbeddedCMap":
+		ok, dig = copyEmbeddedCMap(o.Ref)
+		return ok, 0, dig
+	case "LoadEmbeddedName":
+		// somebody else loads the predefined CMap of that name
+		f, err := cmap.Predefined(embeddedNames[o.Ref%len(embeddedNames)])
+		if err != nil {
+			return false, 0, ""
+		}
+		return true, w.id(f), ""
 	case "Pair":
 		a, _ := pdf.StoreOrLoadPair(w.x, ref, &node{Self: o.Ref}, &nodeB{Self: o.Ref})
 		return true, w.id(a), ""
@@ -451,12 +543,15 @@ func main() {
 					o = op{"Pair", streams[r.Intn(len(streams))]} // keys nobody decodes
 				default:
 					o = op{"Predefined", r.Intn(4)}
-					switch r.Intn(4) {
+					switch r.Intn(5) {
 					case 0, 1:
 						o = op{[]string{"DecodeNil", "DecodeExclusiveNil", "DecodeExclusiveNil"}[r.Intn(3)], valRefs[r.Intn(len(valRefs))]}
 					case 2:
 						// independent files whose fonts name the same predefined CMap
 						o = op{[]string{"ExtractFontA", "ExtractFontB", "PredefinedROS"}[r.Intn(3)], r.Intn(len(sharedCMaps))}
+					case 3:
+						// independent files which embed a CMap of their own under a predefined name
+						o = op{[]string{"CopyEmbeddedCMap", "CopyEmbeddedCMap", "LoadEmbeddedName"}[r.Intn(3)], r.Intn(len(embeddedNames))}
 					}
 				}
 				progs[g] = append(progs[g], o)
@@ -476,6 +571,14 @@ func main() {
 				}
 				if o.Op == "PredefinedFresh" {
 					solo[o] = [2]string{"true", ""} // a predefined CMap always loads; not executed solo (that would fill the cache)
+					continue
+				}
+				if o.Op == "CopyEmbeddedCMap" {
+					solo[o] = [2]string{"true", embeddedTruth} // what the harness put into the file
+					continue
+				}
+				if o.Op == "LoadEmbeddedName" {
+					solo[o] = [2]string{"true", ""}
 					continue
 				}
 				if t, fixed := startTruth[o]; fixed {
